@@ -36,7 +36,7 @@ void _ZNSt6localeD1Ev(char* self) {}
 /* regex object: 32 bytes; the model keeps a pointer to its two compiled forms (anchored for
  * regex_match, plain for regex_search) in the shared_ptr's pointer slot (+16) and leaves the
  * control block (+24) NULL so the translated release code does nothing */
-struct two { regex_t anchored, plain; };
+struct two { regex_t anchored, plain, prefix; }; /* prefix: regex_search with match_continuous (1 << 6 in libstdc++) */
 void
 _ZNSt7__cxx1111basic_regexIcNS_12regex_traitsIcEEE10_M_compileEPKcS5_NSt15regex_constants18syntax_option_typeE(char* self, char* first, char* last, uint32_t flags)
 {
@@ -48,10 +48,12 @@ _ZNSt7__cxx1111basic_regexIcNS_12regex_traitsIcEEE10_M_compileEPKcS5_NSt15regex_
     if (regcomp(&re->plain, buf, cf) != 0) { free(buf); free(re); lib_throw("regex_error"); return; }
     buf[0] = '^'; buf[1] = '('; memcpy(buf + 2, first, n); memcpy(buf + 2 + n, ")$", 3);
     if (regcomp(&re->anchored, buf, cf) != 0) { regfree(&re->plain); free(buf); free(re); lib_throw("regex_error"); return; }
+    memcpy(buf + 2 + n, ")", 2);
+    if (regcomp(&re->prefix, buf, cf) != 0) { regfree(&re->plain); regfree(&re->anchored); free(buf); free(re); lib_throw("regex_error"); return; }
     free(buf);
     *(struct two**)(self + 16) = re;
 }
-void _ZNSt7__cxx1111basic_regexIcNS_12regex_traitsIcEEED2Ev(char* self) { struct two* re = *(struct two**)(self + 16); if (re) { regfree(&re->anchored); regfree(&re->plain); free(re); } }
+void _ZNSt7__cxx1111basic_regexIcNS_12regex_traitsIcEEED2Ev(char* self) { struct two* re = *(struct two**)(self + 16); if (re) { regfree(&re->anchored); regfree(&re->plain); regfree(&re->prefix); free(re); } }
 void _ZNSt12__shared_ptrIKNSt8__detail4_NFAINSt7__cxx1112regex_traitsIcEEEELN9__gnu_cxx12_Lock_policyE2EED2Ev(char* self) {}
 void _ZNSt16_Sp_counted_baseILN9__gnu_cxx12_Lock_policyE2EE24_M_release_last_use_coldEv(char* self) {}
 uint8_t
@@ -59,5 +61,5 @@ _ZNSt8__detail17__regex_algo_implIPKcSaINSt7__cxx119sub_matchIS2_EEEcNS3_12regex
   char* s, char* e, char* results, char* re_, uint32_t flags, uint32_t policy, uint8_t match_mode)
 {
     struct two* re = *(struct two**)(re_ + 16);
-    return regexec(match_mode ? &re->anchored : &re->plain, s, 0, 0, 0) == 0;
+    return regexec(match_mode ? &re->anchored : (flags & 64u) ? &re->prefix : &re->plain, s, 0, 0, 0) == 0;
 }
